@@ -21,7 +21,7 @@ type c09 struct{}
 func (c09) ID() string { return "C09" }
 func (c09) Runs(tier string) int {
 	if tier == "thorough" {
-		return 60000
+		return 300000
 	}
 	return 1600
 }
@@ -435,7 +435,11 @@ func (c09) Run(ctx *core.RunCtx) {
 			if poison {
 				why = "scratch poisoning or history"
 			}
-			ctx.Fail("result", cls+"|differs", "%s(%s) with %s gives a different ciphertext than a pristine evaluator with a clean distinct output (%s): %s", op.name, kindName(op1), patName, why, w)
+			desc := fmt.Sprintf("op0: degree %d level %d scale %s", t0.Degree(), t0.Level(), t0.Scale.Value.Text('g', 12))
+			if tc, ok := t1.(*rlwe.Ciphertext); ok {
+				desc += fmt.Sprintf("; op1: degree %d level %d scale %s", tc.Degree(), tc.Level(), tc.Scale.Value.Text('g', 12))
+			}
+			ctx.Fail("result", cls+"|differs", "%s(%s) with %s gives a different ciphertext than a pristine evaluator with a clean distinct output (%s): %s [%s]", op.name, kindName(op1), patName, why, w, desc)
 			return
 		}
 		// results feed later steps
